@@ -5,6 +5,9 @@ corr   : every call of a modelled shape-calculus function made while building re
          executed unfused by the shape-recording executor, and for every recorded call the Lean model
          (drivers/C12.lean) must give the same declared (shape, chunks, numblocks) as the real output array and, at
          every out coordinate, the same block shape as the block the real function returned.
+         Repaired defects (qr short row chunk, stack of differently chunked operands, scan with ragged groups) are
+         must-hold regression cases; the three remaining findings are recognised by call site + trigger
+         (`classify_mismatches`), anything else is a violation.
 oracle : independent of Lean: (a) `BlockShapeExecutor` compares every block returned by every op's function (fused ops,
          every output of multi-output ops, every field of structured results) with the region it is written into;
          (b) `Array.shape/dtype/chunks` before compute == shape/dtype of the computed result == shape/dtype/chunk grid
@@ -36,6 +39,10 @@ ASSUMPTIONS = [
     "zarr's indexer selects ceil((min(stop,n)-min(start,n))/step) items for a positive-step slice — validated likewise",
     "tree_reduce depth = ceil(log(nb, k)) is computed in floating point: theorem takes k^depth >= nb as hypothesis",
     "dtype rules (result_type, _upcast_integral_dtypes) are compared differentially with NumPy, not proved (DTYPE_RULES)",
+    "the map_blocks / blockwise derivation of squeeze and expand_dims (mapBlocksToBw + bwChunkss) equals the structural formulas the "
+    "theorems are stated on (removeAxes / expandAxes): checked inside the driver on every squeeze / expand_dims request (sc=1)",
+    "stack's operand unification (stackUnify: rechunk to the first operand's chunk size, zero-size arrays left unchanged) is compared "
+    "with the operands the real op reads on every stack call",
 ]
 TRUSTED = ["modelled not verified: NumPy block kernels' shapes, zarr indexer / chunk-write broadcasting, ndindex canonicalisation "
            "(newshape, expand), dask normalize_chunks for non-integer inputs, dtype promotion tables"]
